@@ -490,7 +490,7 @@ func genC18(t *rapid.T) C18Case {
 }
 
 func TestC18(t *testing.T) {
-	p := Prop[C18Case]{ID: "C18", Sub: "workload", Gen: genC18, Run: runC18, Quick: 600, Thorough: 6000}
+	p := Prop[C18Case]{ID: "C18", Sub: "workload", Gen: genC18, Run: runC18, Quick: 500, Thorough: 4000}
 	// every operation kind against every other, two goroutines each
 	Enumerate(t, p, "all-pairs", func(yield func(C18Case) bool) {
 		for a := 0; a < len(c18Kinds); a++ {
